@@ -265,6 +265,12 @@ pub fn run_plan(p: &EPlan, fill: u8) -> EOutcome {
             if stuck >= 2 && cap < min_cap(p.repl) {
                 cap = min_cap(p.repl);
             }
+            if !p.utf16 && !s8.is_char_boundary(off) {
+                // the previous call reported a `read` inside a character: the documented caller loop would
+                // panic on `&src[read..]` (C06: read is a character boundary); stop this history here
+                aborted = Some("read-inside-character".into());
+                break 'chunks;
+            }
             let (c8, c16): (&str, &[u16]) = if p.utf16 { ("", &p.units16[off..end]) } else { (&s8[off..end], &[]) };
             let rec = one_call(&mut e, p, c8, c16, cap, last, fill, capi);
             let res = rec.res.clone();
@@ -513,6 +519,16 @@ pub fn oracles(out: &mut Out, p: &EPlan, o: &EOutcome, props: &[&str]) {
         }
         if o.aborted.is_none() && o.calls.len() > 4 * p.src_len() + 16 + 2 * p.cuts.len() && want("C08") {
             out.fail("C08", &lhs, format!("{} calls for {} units ({} chunks)", o.calls.len(), p.src_len(), p.cuts.len()));
+        }
+    }
+    if let Some(a) = &o.aborted {
+        if a == "read-inside-character" {
+            // every encoder property that follows the documented caller loop is violated by such a call
+            for pid in ["C06", "C04", "C03", "C08", "C09", "C12", "C18"] {
+                if want(pid) {
+                    out.fail(pid, &lhs, format!("call#{} reported a read count that ends inside a UTF-8 character: the caller's `&src[read..]` panics", o.calls.len().saturating_sub(1)));
+                }
+            }
         }
     }
     if o.aborted.is_some() {
